@@ -217,9 +217,21 @@ func main() {
 			}
 			viol = rv
 		}
-		if sim.Deadlocked != "" && viol == nil {
+		if sim.LibPanicked && viol != nil && viol.Class != "data-race" {
+			viol = nil // what the abandoned tasks had recorded is not a verdict
+		}
+		if sim.Deadlocked != "" && viol == nil && !sim.LibPanicked {
 			out.Flush()
 			fmt.Fprintln(os.Stderr, sim.Deadlocked)
+			if os.Getenv("VERIF_DEBUG_DEADLOCK") != "" { // development aid: the end of the trace
+				tr := sim.RenderTrace()
+				if len(tr) > 120 {
+					tr = tr[len(tr)-120:]
+				}
+				for _, l := range tr {
+					fmt.Fprintln(os.Stderr, "  |", l)
+				}
+			}
 			os.Exit(2)
 		}
 		for i := range counters {
